@@ -48,14 +48,15 @@ def run(ctx):
             store, req = g.store(), g.request()
             pols = [g.policy('p%d' % k, depth=r.choice([1, 2, 3])) for k in range(r.randrange(1, 6))]
             tmpl = ['req', c06.var('p'), req[2], req[3], req[4]]
-            vars_ = ['vars', [S('p'), req[1], gen.vent('User', 'b')]]
+            # value lists in no particular order (never pre-sorted): the batch authorizer must leave the caller's slices as they are
+            vars_ = ['vars', [S('p')] + r.sample([gen.vent('User', 'zz'), req[1], gen.vent('User', 'b'), gen.vent('User', 'a'), gen.vent('Doc', 'm')], r.randrange(2, 6))]
         else:
             store = c06.STORE
             p, a, res, cx, ignored = c06.gen_template(r)
             names = set()
             for part in (p, res, cx):
                 c06.vars_of(part, names)
-            vars_ = ['vars'] + [[S(nm)] + ([gen.vrec([('flag', gen.vbool(True)), ('n', gen.vlong(1))])] if nm == 'c' else c06.VALUES[nm][:2]) for nm in sorted(names)]
+            vars_ = ['vars'] + [[S(nm)] + ([gen.vrec([('flag', gen.vbool(True)), ('n', gen.vlong(1))])] if nm == 'c' else list(reversed(c06.VALUES[nm][:3])) if r.random() < 0.5 else c06.VALUES[nm][:2]) for nm in sorted(names)]
             tmpl = ['req', p, a, res, cx]
             req = ['req', c06.UA, c06.ACT, c06.DOC, gen.vrec([('flag', gen.vbool(True)), ('n', gen.vlong(1)), ('l', gen.vset([gen.vlong(1)]))])]
             pols = [['policy', S('p%d' % k), r.choice(['permit', 'forbid']), c06.scope_for(r, 'principal'), c06.scope_for(r, 'action'),
